@@ -11,6 +11,7 @@ import (
 	"runtime/metrics"
 	"strconv"
 	"strings"
+	"sync/atomic"
 	"syscall"
 	"unsafe"
 
@@ -1059,6 +1060,11 @@ type dstCheck struct{ before, after string }
 // The legacy controls run in visible mode like the codec calls: whatever synchronisation they perform (none on the
 // pinned tree, where they are empty) is honoured by the race detector, and whatever memory they touch is checked.
 func pretouch(v interface{}, opts ...frugal.Option) (err error) {
+	// while a warm-up call runs, the initialisers of the LateInit definitions panic ("configuration not loaded yet"):
+	// on the pinned tree the call does nothing, so nobody notices
+	flag := &corpus.InitNotReady[verifsim.TaskID()%512]
+	atomic.StoreInt32(flag, 1)
+	defer atomic.StoreInt32(flag, 0)
 	verifsim.Visible(func() { err = frugal.Pretouch(v, opts...) })
 	return
 }
